@@ -236,7 +236,96 @@ func c05FailedLoads(cfg Config, res *Result) {
 	}
 }
 
+type c05Meters int
+
+func (m c05Meters) Describe() string { return fmt.Sprintf("%d m", int(m)) }
+func (m c05Meters) Unit() string     { return "m" }
+
+type c05Name string
+
+func (n c05Name) Abbrev() string   { return string(n)[:1] + "." }
+func (n c05Name) Describe() string { return "name " + string(n) }
+
+type c05Person struct {
+	c05Name
+	Age int
+}
+
+type c05Plain struct{ Describe string }
+
+// c05Shapes: executions that differ in *what* they run on shared compiled trees — two pages of one
+// layout, and one template over values of different types with same-named members — at the same time
+func c05Shapes(cfg Config, res *Result) {
+	files := map[string]string{
+		"layout.tpl": "<{% block t %}T{% endblock %}|{% block c %}{{ hold() }}C{% endblock %}>",
+		"a.tpl":      `{% extends "layout.tpl" %}{% block t %}A{% endblock %}{% block c %}[content of A {{ hold() }}]{% endblock %}`,
+		"b.tpl":      `{% extends "layout.tpl" %}{% block c %}[content of B {{ hold() }}]{% endblock %}`,
+		"m.tpl":      "{{ v.Describe }}/{% if v.Abbrev %}{{ v.Abbrev }}{% endif %}/{{ v.Unit }}",
+	}
+	rounds := 40
+	if cfg.Thorough() {
+		rounds = 400
+	}
+	for _, debug := range []bool{false, true} {
+		set := pongo2.NewSet("shapes", &memLoader{files: files, id: "0"})
+		set.Debug = debug
+		type job struct {
+			tpl  *pongo2.Template
+			ctx  pongo2.Context
+			want string
+			what string
+		}
+		var jobs []job
+		hold := func() string { runtime.Gosched(); return "" }
+		for _, n := range []string{"a.tpl", "b.tpl", "layout.tpl"} {
+			tpl, err := set.FromCache(n)
+			if err != nil {
+				res.add(Finding{Kind: "disagree", Proj: "harness", Sig: "c05-shapes-compile", Impl: err.Error()})
+				return
+			}
+			c := pongo2.Context{"hold": hold}
+			jobs = append(jobs, job{tpl, c, execOnce(tpl, c).String(), n})
+		}
+		mt, err := set.FromCache("m.tpl")
+		if err != nil {
+			res.add(Finding{Kind: "disagree", Proj: "harness", Sig: "c05-shapes-compile", Impl: err.Error()})
+			return
+		}
+		for _, v := range []any{c05Meters(3), c05Name("Ada"), c05Person{c05Name("Bob"), 3}, &c05Person{c05Name("Cy"), 4}, c05Plain{"field"}, map[string]any{"Describe": "key", "Unit": "u"}} {
+			c := pongo2.Context{"v": v}
+			jobs = append(jobs, job{mt, c, execOnce(mt, c).String(), fmt.Sprintf("m.tpl with v of type %T", v)})
+		}
+		res.Cases++
+		res.DistinctNontrivial++
+		var wg sync.WaitGroup
+		var mu sync.Mutex
+		bad := ""
+		for g := 0; g < 8; g++ {
+			wg.Add(1)
+			go func(g int) {
+				defer wg.Done()
+				for r := 0; r < rounds; r++ {
+					j := jobs[(g+r)%len(jobs)]
+					if got := execOnce(j.tpl, j.ctx).String(); got != j.want {
+						mu.Lock()
+						if bad == "" {
+							bad = fmt.Sprintf("%s rendered %s while other templates / values were being rendered; alone: %s", j.what, got, j.want)
+						}
+						mu.Unlock()
+						return
+					}
+				}
+			}(g)
+		}
+		wg.Wait()
+		if bad != "" {
+			res.add(Finding{Kind: "oracle", Proj: "race", Sig: "c05-concurrent-output-differs", Case: fmt.Sprintf("files=%q debug=%v, 8 goroutines over pages of one layout and values of several types", files, debug), Impl: bad, Model: "every execution returns what it returns alone"})
+		}
+	}
+}
+
 func suiteC05(cfg Config, res *Result) {
+	c05Shapes(cfg, res)
 	c05FailedLoads(cfg, res)
 	c05FailSites(cfg, res, NewRNG(cfg.Seed^0xfa115))
 	c05InFlight(cfg, res)
